@@ -17,6 +17,9 @@ var checks = map[string]func(*ev.Ctx){
 	"C01": props.C01,
 	"C02": props.C02,
 	"C03": props.C03,
+	"C04": props.C04,
+	"C06": props.C06,
+	"C12": props.C12,
 }
 
 func main() {
